@@ -200,6 +200,15 @@ func Yield() {
 	runtime.Gosched()
 }
 
+// Jitter is a no-op for the symbolic executor (not a scheduling point); natively
+// it sleeps a random time up to maxMicros so that repeated replays of a
+// schedule-dependent counterexample explore different timings.
+func Jitter(maxMicros int) {
+	if maxMicros > 0 {
+		time.Sleep(time.Duration(rand.Intn(maxMicros+1)) * time.Microsecond)
+	}
+}
+
 // Main is the entry point of the generated native replay binary:
 // <bin> <harness> ; the replay file is named by $VERIFRT_REPLAY.
 func Main(harnesses map[string]func()) {
